@@ -215,7 +215,7 @@ def _str_to_set_of_expr(value: Any) -> set[Expression]:
     for expression in value:
         try:
             result.add(_LICENSING.parse(expression))
-        except (ExpressionError, ParseError, TypeError) as error:
+        except (ExpressionError, ParseError, TypeError, IndexError) as error:
             raise GlobalLicensingParseValueError(
                 _("Could not parse '{expression}'").format(
                     expression=expression
